@@ -76,3 +76,13 @@ pub proof fn lemma_quantile_ranks_bracket(c: Confidence, n: usize, q: R)
     lemma_floor_int(0int);
     ax_r_of(pl); ax_r_of(ph); ax_r_of(1real); ax_r_of(0real);
 }
+// C03: the element-level result is the order statistics at the ranks: same kind, each bound a clone of sorted[rank]
+// (for a two-sided request the interval is built with Interval::new, so equal or ordered elements are required for Ok)
+pub open spec fn elements_at<T: PartialOrd + Clone>(ranks: Interval<usize>, sorted: Seq<T>, r: CIResult<Interval<T>>) -> bool {
+    match ranks {
+        Interval::TwoSided(i, j) => i < sorted.len() && j < sorted.len() && (r is Ok ==> r->Ok_0 is TwoSided && cloned(sorted[i as int], r->Ok_0->TwoSided_0) && cloned(sorted[j as int], r->Ok_0->TwoSided_1))
+            && (r is Err ==> r->Err_0 == CIError::IntervalError(IntervalError::InvalidBounds)),
+        Interval::UpperOneSided(i) => i < sorted.len() && r is Ok && r->Ok_0 is UpperOneSided && cloned(sorted[i as int], r->Ok_0->UpperOneSided_0),
+        Interval::LowerOneSided(j) => j < sorted.len() && r is Ok && r->Ok_0 is LowerOneSided && cloned(sorted[j as int], r->Ok_0->LowerOneSided_0),
+    }
+}
